@@ -96,6 +96,56 @@ def scenario(c, exp, rate=False, refuse_first=False, json_out=False):
     return {'argv': argv, 'servers': servers, 'resolver': resolver, 'files': files}
 
 
+def list_leg(ck):
+    """A targets file with more lines than worker threads: every listed target is dialled, on its own port, and reported under its
+    own label with its own server's banner - none twice, none skipped (tasks that wait in the queue keep their own target)."""
+    base = c08.healthy()['warn']
+    scs, meta = [], []
+    for n, threads in ((3, 1), (4, 1), (4, 2), (5, 3), (2, 1)):
+        servers, lines, want = {}, [], {}
+        resolver = {}
+        for i in range(n):
+            host = 'node%d.example' % i
+            ip = '192.0.2.%d' % (10 + i)
+            port = 22 if i % 2 == 0 else 2200 + i
+            resolver[host] = [(socket.AF_INET, ip)]
+            cfg = peers.ServerCfg(base)
+            cfg['banner'] = b'SSH-2.0-Node_%d.0' % i
+            servers[(ip, port)] = cfg
+            lines.append(host if port == 22 else '%s:%d' % (host, port))
+            want['%s:%d' % (host, port)] = ('%s:%d' % (ip, port), 'SSH-2.0-Node_%d.0' % i)
+        scs.append({'argv': ['-j', '--skip-rate-test', '--threads', str(threads), '-T', '{tmp}/targets.txt'], 'servers': servers, 'resolver': resolver,
+                    'files': {'targets.txt': '\n'.join(lines) + '\n'}})
+        meta.append((n, threads, want))
+    for (n, threads, want), sc, r in zip(meta, scs, runner.run_many(scs)):
+        ck.evaluated()
+        if r.get('harness_error') or r.get('hang'):
+            raise common.Machinery('target-list run failed: %r' % (r.get('harness_error') or 'hang'))
+        replay = {'lines': sc['files']['targets.txt'], 'argv': sc['argv'], 'exit': r['exit'], 'stdout': r['stdout'][-2000:]}
+        first = {}
+        for e in r['events']:
+            if e.get('ev') == 'connect' and 'host' in e:
+                first.setdefault('%s:%d' % (e['host'], e['port']), 0)
+                first['%s:%d' % (e['host'], e['port'])] += 1
+        dialled = sorted(first)
+        expect = sorted(v[0] for v in want.values())
+        if dialled != expect:
+            ck.violation('listed-target-not-dialled threads<targets' if threads < n else 'listed-target-not-dialled',
+                         '%d targets, %d thread(s): dialled %r, listed %r' % (n, threads, dialled, expect), replay)
+            continue
+        try:
+            doc = json.loads(r['stdout'])
+            got = sorted((el['target'], el['banner']['raw']) for el in doc)
+        except (ValueError, KeyError, TypeError):
+            ck.violation('target-list-json-unparsable', 'stdout of -T -j is not a JSON array of reports', replay)
+            continue
+        if got != sorted((k, v[1]) for k, v in want.items()):
+            ck.violation('report-label-mismatch', '%d targets, %d thread(s): reports (label, banner) %r, expected %r' % (n, threads, got, sorted((k, v[1]) for k, v in want.items())), replay)
+        else:
+            ck.cov['traces_validated_against_impl'] += 1
+            ck.nontrivial(('list', n, threads))
+
+
 def run(tier):
     ck = common.Check('C18', tier)
     rnd = random.Random(ck.seed)
@@ -209,6 +259,7 @@ def run(tier):
             ck.cov['traces_validated_against_impl'] += 1
     ck.sample({'spelling': cases[40]['spelling'], 'source': cases[40]['source'], 'popt': cases[40]['popt_arg'], 'fam': cases[40]['fam'],
                'expected': {k: exp[cases[40]['id']][k] for k in ('host', 'port', 'rejected', 'family', 'order')}})
+    list_leg(ck)
     ck.cov['rule'] = ('hosts {names, IPv4, IPv6 compressed/link-local/full} x ports {none,1,22,2222,65535,0,65536,70000} x documented spellings x {argv, targets-file line '
                       'with whitespace and blank neighbours} x -p {absent,1,22,2222,65535,0,65536} x {-4,-6,-46,-64,none} x resolver answers; expectation from TLC '
                       '(SshTarget); every getaddrinfo/connect of the run compared, incl. probe phases, first-address-refuses and rate-check variants; labels compared')
